@@ -13,6 +13,7 @@ EXPLANATION = ("dispatch-table, who-may-call and dominance rules: the message-ty
                "inside the allocator the write is the last fallible step; reply header fields are copied from the request and "
                "the server-id option names this server; the error edge of the dispatcher reaches no send")
 ASSUMPTIONS = ["trusted: SQLite; with C01.R1 (single writer keyed by the assigned address) these clauses give the full statement"]
+EXPLANATION += "; also: get_serverid() returns option 54 untouched; option 54 is set after every call that can still write the response; C01's single-writer and uniqueness rules are evaluated here too"
 EXTRA_CONFIGS = ["dhcp"]
 
 
